@@ -54,3 +54,9 @@ Proof.
          rewrite IH, Hlen; reflexivity). }
   rewrite H. destruct (group_loop 0 ms ws at_ [] [] false); reflexivity.
 Qed.
+
+(* Segment.Reverse as regenerated from mputil.go is the model's seg_reverse (the only thing left
+   to the model of package orb is that LineString.Reverse reverses the list in place) *)
+Lemma gen_segment_reverse_ok s :
+  gen_segment_reverse (s_index s) (s_orient s) (s_reversed s) (s_line s) = seg_reverse s.
+Proof. reflexivity. Qed.
